@@ -72,4 +72,25 @@ Proof.
   destruct (load_eval1 src) as [spec|]; [|reflexivity].
   destruct (to_yaml (emit spec None)) as [y|]; [|reflexivity]. rewrite Hw. reflexivity.
 Qed.
+
+(** options over a configuration file: with a target given on the command line, success means
+    that this target holds the document read from the main module given on the command line
+    (when there is one), and the target named by the file, like every other path, is untouched *)
+Theorem option_target_wins args file t fs e fs' :
+  c_target args = Some t -> run (resolve args file) fs = (e, fs') ->
+  (forall q, q <> t -> fs' q = fs q) /\
+  (e = Success -> exists m spec ob y, orp (c_main args) (c_main file) = Some m /\ load_eval fs m = Some spec /\
+                  to_yaml (emit spec ob) = Some y /\ fs' t = Some y).
+Proof.
+  intros Ht H. split.
+  - intros q Hq. apply (other_files_untouched _ _ _ _ q H). unfold resolve; cbn [c_target]. rewrite Ht. cbn. congruence.
+  - intros ->. destruct (success_writes_document _ _ _ H) as (m & t' & spec & ob & y & Hm & Ht' & Hl & Hy & -> & _).
+    unfold resolve in Hm, Ht'; cbn [c_main c_target] in Hm, Ht'. rewrite Ht in Ht'. cbn in Ht'. inversion Ht'; subst t'.
+    exists m, spec, ob, y. repeat split; try assumption. unfold fs_write. rewrite N.eqb_refl. reflexivity.
+Qed.
+
+Lemma resolve_no_file args : resolve args (mk_config None None None) = args.
+Proof. destruct args as [[?|] [?|] [?|]]; reflexivity. Qed.
+Lemma resolve_no_args file : resolve (mk_config None None None) file = file.
+Proof. destruct file; reflexivity. Qed.
 End P.
